@@ -1,11 +1,1046 @@
 package main
 
-import "verif/engine/core"
+// Part B: the C18 events driven through Lua and the Go API on a real Runtime.
+// A case is a well-formed sequence of operations; it is run twice on fresh
+// runtimes: rendered as ONE Lua chunk (contexts through runtime.callcontext)
+// and operation by operation through the Go API (Thread.CallContext), where no
+// VM step separates two operations -- the moment at which Go's collector (the
+// seam) is allowed to act.  Every __gc / ReleaseResources invocation is logged
+// with the context depth / status / cpu at that moment and the log is judged
+// by refgc.RTMon.
 
-type bmachine struct{}
+import (
+	"fmt"
+	"reflect"
+	"runtime"
+	"strings"
+
+	"github.com/arnodel/golua/lib"
+	rt "github.com/arnodel/golua/runtime"
+
+	"verif/engine/refgc"
+)
+
+// ---------------------------------------------------------------- operations
+
+type bop struct{ k, v, a uint8 }
+
+const (
+	oNew = iota
+	oRemark
+	oUnmeta
+	oDrop
+	oFire
+	oGC
+	oEnter
+	oLeave
+)
+
+// value kinds
+const (
+	kT       = iota // table with __gc
+	kUR             // userdata, releaser, no __gc
+	kUFR            // userdata, releaser and __gc
+	kTres           // table whose finaliser stores it back in its global (once)
+	kUF             // userdata with __gc, no releaser
+	kTremark        // table whose finaliser resurrects and re-marks it (once)
+	kUFRres         // userdata FR whose finaliser resurrects it (once)
+	kTspin          // table whose finaliser never returns (only under a hard cpu limit)
+	nKinds
+)
+
+var kindName = [nKinds]string{"T", "UR", "UFR", "Tres", "UF", "Tremark", "UFRres", "Tspin"}
+
+func kindF(k uint8) bool     { return k != kUR }
+func kindR(k uint8) bool     { return k == kUR || k == kUFR || k == kUFRres }
+func kindTable(k uint8) bool { return k == kT || k == kTres || k == kTremark || k == kTspin }
+func kindRes(k uint8) bool   { return k == kTres || k == kTremark || k == kUFRres }
+func kindMode(k uint8) string {
+	switch k {
+	case kTres, kUFRres:
+		return "res"
+	case kTremark:
+		return "remark"
+	case kTspin:
+		return "spin"
+	}
+	return ""
+}
+
+// context kinds
+const (
+	cCPU = iota
+	cMem
+	cSoft
+	nCtxKinds
+)
+
+var ctxName = [nCtxKinds]string{"cpu", "mem", "soft"}
+var ctxLua = [nCtxKinds]string{"{kill={cpu=20000}}", "{kill={memory=1000000}}", "{stop={cpu=1000000}}"}
+
+func ctxDef(k uint8) rt.RuntimeContextDef {
+	switch k {
+	case cCPU:
+		return rt.RuntimeContextDef{HardLimits: rt.RuntimeResources{Cpu: 20000}}
+	case cMem:
+		return rt.RuntimeContextDef{HardLimits: rt.RuntimeResources{Memory: 1000000}}
+	}
+	return rt.RuntimeContextDef{SoftLimits: rt.RuntimeResources{Cpu: 1000000}}
+}
+
+// leave modes
+const (
+	lRet = iota
+	lErr
+	lKill
+	lLoop
+	nLeave
+)
+
+var leaveName = [nLeave]string{"ret", "err", "kill", "loop"}
+
+func (o bop) String() string {
+	v := string(rune('a' + o.v))
+	switch o.k {
+	case oNew:
+		return "new " + v + " " + kindName[o.a]
+	case oRemark:
+		return "remark " + v
+	case oUnmeta:
+		return "unmeta " + v
+	case oDrop:
+		return "drop " + v
+	case oFire:
+		return "gcfire " + v
+	case oGC:
+		return "collectgarbage"
+	case oEnter:
+		return "enter " + ctxName[o.a]
+	case oLeave:
+		return "leave " + leaveName[o.a]
+	}
+	return "?"
+}
+
+func seqString(ops []bop) string {
+	parts := make([]string, len(ops))
+	for i, o := range ops {
+		parts[i] = o.String()
+	}
+	return strings.Join(parts, "; ")
+}
+
+// ---------------------------------------------------------------- generator (static well-formedness)
+
+const maxVals = 3
+
+type gval struct {
+	created, dropped, fired bool
+	kind                    uint8
+	owner                   int8 // context instance of the latest mark (0 root), -1 closed
+}
+type gctx struct {
+	inst    int8
+	kind    uint8
+	hardCPU bool
+}
+type gstate struct {
+	vals  [maxVals]gval
+	n     int
+	stack [4]gctx
+	depth int
+	nctx  int8
+}
+
+type bcfg struct {
+	kinds    []uint8
+	ctxKinds []uint8
+	leaves   []uint8
+	nvals    int
+	maxDepth int
+	maxCtx   int
+	length   int
+}
+
+var permissive = bcfg{
+	kinds:    []uint8{kT, kUR, kUFR, kTres, kUF, kTremark, kUFRres, kTspin},
+	ctxKinds: []uint8{cCPU, cMem, cSoft},
+	leaves:   []uint8{lRet, lErr, lKill, lLoop},
+	nvals:    maxVals, maxDepth: 3, maxCtx: 100, length: 1 << 20,
+}
+
+func (s *gstate) hardCPU() bool { return s.depth > 0 && s.stack[s.depth-1].hardCPU }
+
+func (s *gstate) isolInst() int8 {
+	for i := s.depth - 1; i >= 0; i-- {
+		if s.stack[i].kind != cSoft {
+			return s.stack[i].inst
+		}
+	}
+	return 0
+}
+
+func in(xs []uint8, x uint8) bool {
+	for _, y := range xs {
+		if x == y {
+			return true
+		}
+	}
+	return false
+}
+
+// allowed: may o follow in state s?  (static rules; operations on a global
+// that turns out to be nil at run time are no-ops)
+func (s *gstate) allowed(o bop, c *bcfg) bool {
+	switch o.k {
+	case oNew:
+		if int(o.v) != s.n || s.n >= c.nvals || !in(c.kinds, o.a) {
+			return false
+		}
+		if o.a == kTspin && !s.hardCPU() {
+			return false
+		}
+		return true
+	case oRemark, oUnmeta, oDrop:
+		if int(o.v) >= s.n {
+			return false
+		}
+		v := &s.vals[o.v]
+		if v.dropped && !(kindRes(v.kind) && v.fired) {
+			return false
+		}
+		if o.k == oRemark && v.kind == kTspin && v.owner != s.isolInst() {
+			return false // its finaliser must only ever run under a hard cpu limit
+		}
+		if o.k == oUnmeta && v.kind == kTspin {
+			return false
+		}
+		return true
+	case oFire:
+		if int(o.v) >= s.n {
+			return false
+		}
+		v := &s.vals[o.v]
+		return v.dropped && !v.fired
+	case oGC:
+		// collectgarbage declares no compliance flags: it is refused under
+		// any hard limit
+		for i := 0; i < s.depth; i++ {
+			if s.stack[i].kind != cSoft {
+				return false
+			}
+		}
+		return true
+	case oEnter:
+		return s.depth < c.maxDepth && int(s.nctx) < c.maxCtx && in(c.ctxKinds, o.a)
+	case oLeave:
+		if s.depth == 0 || !in(c.leaves, o.a) {
+			return false
+		}
+		if o.a == lLoop && !s.hardCPU() {
+			return false
+		}
+		return true
+	}
+	return false
+}
+
+func (s *gstate) apply(o bop) {
+	switch o.k {
+	case oNew:
+		s.vals[o.v] = gval{created: true, kind: o.a, owner: s.isolInst()}
+		s.n++
+	case oRemark:
+		s.vals[o.v].owner = s.isolInst()
+	case oDrop:
+		s.vals[o.v].dropped, s.vals[o.v].fired = true, false
+	case oFire:
+		s.vals[o.v].fired = true
+	case oEnter:
+		s.nctx++
+		s.stack[s.depth] = gctx{inst: s.nctx, kind: o.a, hardCPU: o.a == cCPU || s.hardCPU()}
+		s.depth++
+	case oLeave:
+		inst := s.stack[s.depth-1].inst
+		if s.stack[s.depth-1].kind != cSoft {
+			for i := range s.vals {
+				if s.vals[i].owner == inst {
+					s.vals[i].owner = -1
+				}
+			}
+		}
+		s.depth--
+	}
+}
+
+func wellFormed(ops []bop, c *bcfg) bool {
+	var s gstate
+	for _, o := range ops {
+		if !s.allowed(o, c) {
+			return false
+		}
+		s.apply(o)
+	}
+	return true
+}
+
+func alphabet(c *bcfg) []bop {
+	var out []bop
+	for v := 0; v < c.nvals; v++ {
+		for _, k := range c.kinds {
+			out = append(out, bop{oNew, uint8(v), k})
+		}
+	}
+	for _, k := range []uint8{oDrop, oFire, oRemark, oUnmeta} {
+		for v := 0; v < c.nvals; v++ {
+			out = append(out, bop{k, uint8(v), 0})
+		}
+	}
+	out = append(out, bop{oGC, 0, 0})
+	for _, k := range c.ctxKinds {
+		out = append(out, bop{oEnter, 0, k})
+	}
+	for _, k := range c.leaves {
+		out = append(out, bop{oLeave, 0, k})
+	}
+	return out
+}
+
+// generate lists every well-formed sequence of 1..length operations, shortest
+// first within each prefix order (depth first, deterministic).
+func generate(c *bcfg) (flat []bop, offs []uint32) {
+	al := alphabet(c)
+	byLen := make([][]bop, c.length+1)
+	var rec func(prefix []bop, s gstate)
+	rec = func(prefix []bop, s gstate) {
+		if len(prefix) > 0 {
+			byLen[len(prefix)] = append(byLen[len(prefix)], prefix...)
+		}
+		if len(prefix) == c.length {
+			return
+		}
+		for _, o := range al {
+			if !s.allowed(o, c) {
+				continue
+			}
+			// a sequence that ends by creating a value, entering a context
+			// or a bare collectgarbage adds nothing over its prefix; still
+			// enumerated only when not last
+			s2 := s
+			s2.apply(o)
+			rec(append(prefix, o), s2)
+		}
+	}
+	rec(nil, gstate{})
+	offs = append(offs, 0)
+	for l := 1; l <= c.length; l++ {
+		for i := 0; i+l <= len(byLen[l]); i += l {
+			flat = append(flat, byLen[l][i:i+l]...)
+			offs = append(offs, uint32(len(flat)))
+		}
+	}
+	return
+}
+
+// ---------------------------------------------------------------- machine
+
+type rawEntry struct {
+	kind   string
+	id     int
+	depth  int
+	status string
+	cpu    uint64
+}
+
+type seamReg struct {
+	obj interface{}
+	fin interface{}
+	id  int
+}
+
+type bmachine struct {
+	r       *rt.Runtime
+	cleanup func()
+	log     []rawEntry
+	regs    []*seamReg
+	byObj   map[interface{}]*seamReg
+	pools   []rt.VerifGCPool
+	held    [maxVals + 1]bool
+	seamBad []string
+	fn      map[string]rt.Value
+	keep    []interface{}
+	fires   int
+	opsRef  []bop
+}
 
 var curMachine *bmachine
 
-func (m *bmachine) seam(obj, fin interface{}) {}
+type ures struct {
+	id int
+	m  *bmachine
+}
+type urel struct{ ures }
 
-func partBFamilies(tier string) []*core.Family { return nil }
+func (u *urel) ReleaseResources(d *rt.UserData) { u.m.logNow("rel", u.id) }
+
+func resID(x interface{}) int {
+	switch u := x.(type) {
+	case *ures:
+		return u.id
+	case *urel:
+		return u.id
+	}
+	return 0
+}
+
+func objID(obj interface{}) int {
+	switch o := obj.(type) {
+	case *rt.Table:
+		if n, ok := o.Get(rt.StringValue("id")).TryInt(); ok {
+			return int(n)
+		}
+	case *rt.UserData:
+		return resID(o.Value())
+	}
+	return 0
+}
+
+func valueID(v rt.Value) int {
+	if t, ok := v.TryTable(); ok {
+		return objID(t)
+	}
+	if u, ok := v.TryUserData(); ok {
+		return objID(u)
+	}
+	if n, ok := v.TryInt(); ok {
+		return int(n)
+	}
+	return 0
+}
+
+func (m *bmachine) seam(obj interface{}, fin interface{}) {
+	reg := m.byObj[obj]
+	if reg == nil {
+		reg = &seamReg{obj: obj, id: objID(obj)}
+		m.byObj[obj] = reg
+		m.regs = append(m.regs, reg)
+	}
+	if fin != nil && reg.fin != nil && reg.id > 0 {
+		// the real runtime.SetFinalizer throws "finalizer already set": the
+		// whole process dies
+		m.seamBad = append(m.seamBad, fmt.Sprintf("go-setfinalizer-twice(%c)", 'a'+reg.id-1))
+	}
+	reg.fin = fin
+}
+
+func isNilCtx(c rt.RuntimeContext) bool {
+	if c == nil {
+		return true
+	}
+	v := reflect.ValueOf(c)
+	return v.Kind() == reflect.Ptr && v.IsNil()
+}
+
+func (m *bmachine) notePool() {
+	p := m.r.VerifWeakRefPool()
+	for _, q := range m.pools {
+		if q == p {
+			return
+		}
+	}
+	m.pools = append(m.pools, p)
+}
+
+func (m *bmachine) logNow(kind string, id int) {
+	c := m.r.RuntimeContext()
+	e := rawEntry{kind: kind, id: id, status: c.Status().String(), cpu: c.UsedResources().Cpu}
+	for p := c.Parent(); !isNilCtx(p); p = p.Parent() {
+		e.depth++
+	}
+	m.log = append(m.log, e)
+	m.notePool()
+}
+
+const allFlags = rt.ComplyCpuSafe | rt.ComplyMemSafe | rt.ComplyIoSafe | rt.ComplyTimeSafe
+
+const prelude = `
+MODE = {}
+KIND = {}
+function MT() return {__gc = GC} end
+function GC(o)
+  note("gc", o)
+  local id = idof(o)
+  local m = MODE[id]
+  local x = 0
+  for i = 1, 10 do x = x + i end
+  if m == "res" then
+    MODE[id] = nil
+    _G["V" .. id] = o
+    note("res", o)
+  elseif m == "remark" then
+    MODE[id] = nil
+    _G["V" .. id] = o
+    note("res", o)
+    setmetatable(o, MT())
+    note("mark", o)
+  elseif m == "spin" then
+    while true do end
+  end
+  note("gcend", o)
+end
+function newT(i, id, mode)
+  op(i)
+  MODE[id] = mode
+  KIND[id] = "T"
+  _G["V" .. id] = setmetatable({id = id}, MT())
+end
+function newU(i, id, hasgc, rel, mode)
+  op(i)
+  MODE[id] = mode
+  KIND[id] = hasgc and "UF" or "U"
+  _G["V" .. id] = mkU(id, rel, hasgc and MT() or {})
+end
+function remark(i, id)
+  local v = _G["V" .. id]
+  if v == nil then return end
+  op(i)
+  if KIND[id] == "T" then
+    setmetatable(v, MT())
+  else
+    debug.setmetatable(v, KIND[id] == "UF" and MT() or {})
+  end
+end
+function unmeta(i, id)
+  local v = _G["V" .. id]
+  if v == nil then return end
+  op(i)
+  if KIND[id] == "T" then
+    setmetatable(v, nil)
+  else
+    debug.setmetatable(v, nil)
+  end
+end
+function drop(i, id)
+  if _G["V" .. id] == nil then return end
+  op(i)
+  _G["V" .. id] = nil
+end
+function gcop(i)
+  op(i)
+  collectgarbage()
+end
+function errop() error("leave by error") end
+function killop() runtime.killcontext() end
+function loopop() while true do end end
+`
+
+func newBMachine() *bmachine {
+	r := rt.New(nil)
+	runtime.SetFinalizer(r, nil)
+	m := &bmachine{r: r, byObj: map[interface{}]*seamReg{}, fn: map[string]rt.Value{}}
+	curMachine = m
+	m.cleanup = lib.LoadAll(r)
+	env := r.GlobalEnv()
+	def := func(name string, nargs int, f func(t *rt.Thread, c *rt.GoCont) (rt.Cont, error)) {
+		g := r.SetEnvGoFunc(env, name, f, nargs, false)
+		rt.SolemnlyDeclareCompliance(allFlags, g)
+	}
+	def("note", 2, func(t *rt.Thread, c *rt.GoCont) (rt.Cont, error) {
+		k, _ := c.StringArg(0)
+		m.noteEvent(string(k), valueID(c.Arg(1)))
+		return c.Next(), nil
+	})
+	def("idof", 1, func(t *rt.Thread, c *rt.GoCont) (rt.Cont, error) {
+		return c.PushingNext1(t.Runtime, rt.IntValue(int64(valueID(c.Arg(0))))), nil
+	})
+	def("op", 1, func(t *rt.Thread, c *rt.GoCont) (rt.Cont, error) {
+		i, _ := c.IntArg(0)
+		m.opMark(int(i))
+		return c.Next(), nil
+	})
+	def("mkU", 3, func(t *rt.Thread, c *rt.GoCont) (rt.Cont, error) {
+		id, _ := c.IntArg(0)
+		var meta *rt.Table
+		if !c.Arg(2).IsNil() {
+			meta, _ = c.TableArg(2)
+		}
+		var val interface{}
+		if rt.Truth(c.Arg(1)) {
+			val = &urel{ures{id: int(id), m: m}}
+		} else {
+			val = &ures{id: int(id), m: m}
+		}
+		u := t.Runtime.NewUserDataValue(val, meta)
+		m.notePool()
+		return c.PushingNext1(t.Runtime, u), nil
+	})
+	def("fire", 2, func(t *rt.Thread, c *rt.GoCont) (rt.Cont, error) {
+		i, _ := c.IntArg(0)
+		id, _ := c.IntArg(1)
+		m.fire(int(i), int(id))
+		return c.Next(), nil
+	})
+	def("enter", 1, func(t *rt.Thread, c *rt.GoCont) (rt.Cont, error) {
+		i, _ := c.IntArg(0)
+		m.logNow("enter", int(i))
+		return c.Next(), nil
+	})
+	def("bodyend", 1, func(t *rt.Thread, c *rt.GoCont) (rt.Cont, error) {
+		i, _ := c.IntArg(0)
+		m.logNow("bodyend", int(i))
+		return c.Next(), nil
+	})
+	def("after", 2, func(t *rt.Thread, c *rt.GoCont) (rt.Cont, error) {
+		i, _ := c.IntArg(0)
+		u, ok := c.Arg(1).TryUserData()
+		if !ok {
+			m.log = append(m.log, rawEntry{kind: "after", id: int(i), status: "?"})
+			return c.Next(), nil
+		}
+		ctx, _ := u.Value().(rt.RuntimeContext)
+		m.logAfter(int(i), ctx)
+		return c.Next(), nil
+	})
+	clos, err := r.CompileAndLoadLuaChunk("prelude", []byte(prelude), rt.TableValue(env))
+	if err != nil {
+		panic("prelude: " + err.Error())
+	}
+	if err := rt.Call(r.MainThread(), rt.FunctionValue(clos), nil, rt.NewTerminationWith(nil, 0, false)); err != nil {
+		panic("prelude: " + err.Error())
+	}
+	for _, n := range []string{"newT", "newU", "remark", "unmeta", "drop", "gcop", "errop", "killop", "loopop"} {
+		m.fn[n] = env.Get(rt.StringValue(n))
+	}
+	m.notePool()
+	return m
+}
+
+func (m *bmachine) logAfter(inst int, ctx rt.RuntimeContext) {
+	e := rawEntry{kind: "after", id: inst, status: "?"}
+	if !isNilCtx(ctx) {
+		e.status = ctx.Status().String()
+		e.cpu = ctx.UsedResources().Cpu
+	}
+	m.log = append(m.log, e)
+	m.notePool()
+}
+
+func (m *bmachine) noteEvent(kind string, id int) {
+	switch kind {
+	case "res":
+		if id > 0 && id <= maxVals {
+			m.held[id] = true
+		}
+	}
+	m.logNow(kind, id)
+}
+
+// retained lists the tables / userdata referenced by the structure of any pool
+// seen so far (such an object is reachable for Go: its finaliser cannot run).
+func (m *bmachine) retained() map[interface{}]bool {
+	out := map[interface{}]bool{}
+	seen := map[uintptr]bool{}
+	tT, tU := reflect.TypeOf(&rt.Table{}), reflect.TypeOf(&rt.UserData{})
+	byAddr := map[uintptr]interface{}{}
+	for _, r := range m.regs {
+		byAddr[reflect.ValueOf(r.obj).Pointer()] = r.obj
+	}
+	var walk func(v reflect.Value)
+	walk = func(v reflect.Value) {
+		switch v.Kind() {
+		case reflect.Ptr:
+			if v.IsNil() {
+				return
+			}
+			p := v.Pointer()
+			if v.Type() == tT || v.Type() == tU {
+				if o, ok := byAddr[p]; ok {
+					out[o] = true
+				}
+				return // the Lua object graph is not the pool's structure
+			}
+			if !strings.HasSuffix(v.Type().Elem().PkgPath(), "internal/luagc") {
+				return // only the pool's own structure (keys are arbitrary Go values)
+			}
+			if seen[p] {
+				return
+			}
+			seen[p] = true
+			walk(v.Elem())
+		case reflect.Interface:
+			if !v.IsNil() {
+				walk(v.Elem())
+			}
+		case reflect.Struct:
+			if !strings.HasSuffix(v.Type().PkgPath(), "internal/luagc") {
+				return
+			}
+			for i := 0; i < v.NumField(); i++ {
+				walk(v.Field(i))
+			}
+		case reflect.Map:
+			it := v.MapRange()
+			for it.Next() {
+				walk(it.Key())
+				walk(it.Value())
+			}
+		case reflect.Slice, reflect.Array:
+			if v.Kind() == reflect.Slice && v.IsNil() {
+				return
+			}
+			for i := 0; i < v.Len(); i++ {
+				walk(v.Index(i))
+			}
+		}
+	}
+	for _, p := range m.pools {
+		walk(reflect.ValueOf(p))
+	}
+	return out
+}
+
+// fire is the environment event "Go collected value id": the oldest object of
+// that value that carries a Go finaliser and is unreachable (the program
+// dropped the value, no pool references the object) has its finaliser run.
+func (m *bmachine) fire(i, id int) {
+	m.opMark(i)
+	if id <= 0 || id > maxVals || m.held[id] {
+		return
+	}
+	var ret map[interface{}]bool
+	for _, reg := range m.regs {
+		if reg.id != id || reg.fin == nil {
+			continue
+		}
+		if ret == nil {
+			ret = m.retained()
+		}
+		if ret[reg.obj] {
+			continue
+		}
+		fin := reg.fin
+		reg.fin = nil // Go clears the finaliser before running it
+		m.fires++
+		switch o := reg.obj.(type) {
+		case *rt.Table:
+			fin.(func(rt.VerifGCValue))(o)
+		case *rt.UserData:
+			fin.(func(rt.VerifGCValue))(o)
+		}
+		return
+	}
+}
+
+func (m *bmachine) call(name string, args ...rt.Value) error {
+	return rt.Call(m.r.MainThread(), m.fn[name], args, rt.NewTerminationWith(nil, 0, false))
+}
+
+func iv(n int) rt.Value { return rt.IntValue(int64(n)) }
+
+func modeVal(k uint8) rt.Value {
+	if s := kindMode(k); s != "" {
+		return rt.StringValue(s)
+	}
+	return rt.NilValue
+}
+
+// ---------------------------------------------------------------- the two renderings
+
+func matchLeave(ops []bop, enter int) int {
+	d := 0
+	for j := enter + 1; j < len(ops); j++ {
+		switch ops[j].k {
+		case oEnter:
+			d++
+		case oLeave:
+			if d == 0 {
+				return j
+			}
+			d--
+		}
+	}
+	return len(ops)
+}
+
+// instOf numbers the contexts in order of their enter operation.
+func instOf(ops []bop, enter int) int {
+	n := 0
+	for j := 0; j <= enter; j++ {
+		if ops[j].k == oEnter {
+			n++
+		}
+	}
+	return n
+}
+
+func luaMode(k uint8) string {
+	if s := kindMode(k); s != "" {
+		return fmt.Sprintf("%q", s)
+	}
+	return "nil"
+}
+
+func renderLua(ops []bop) string {
+	var sb strings.Builder
+	var rec func(from, to int, indent string)
+	rec = func(from, to int, indent string) {
+		for i := from; i < to; i++ {
+			o := ops[i]
+			id := int(o.v) + 1
+			sb.WriteString(indent)
+			switch o.k {
+			case oNew:
+				if kindTable(o.a) {
+					fmt.Fprintf(&sb, "newT(%d, %d, %s)\n", i, id, luaMode(o.a))
+				} else {
+					fmt.Fprintf(&sb, "newU(%d, %d, %v, %v, %s)\n", i, id, kindF(o.a), kindR(o.a), luaMode(o.a))
+				}
+			case oRemark:
+				fmt.Fprintf(&sb, "remark(%d, %d)\n", i, id)
+			case oUnmeta:
+				fmt.Fprintf(&sb, "unmeta(%d, %d)\n", i, id)
+			case oDrop:
+				fmt.Fprintf(&sb, "drop(%d, %d)\n", i, id)
+			case oFire:
+				fmt.Fprintf(&sb, "fire(%d, %d)\n", i, id)
+			case oGC:
+				fmt.Fprintf(&sb, "gcop(%d)\n", i)
+			case oEnter:
+				end := matchLeave(ops, i)
+				inst := instOf(ops, i)
+				fmt.Fprintf(&sb, "local c%d = runtime.callcontext(%s, function()\n", inst, ctxLua[o.a])
+				fmt.Fprintf(&sb, "%s  enter(%d)\n", indent, inst)
+				rec(i+1, end, indent+"  ")
+				fmt.Fprintf(&sb, "%s  bodyend(%d)\n", indent, inst)
+				mode := uint8(lRet)
+				if end < len(ops) {
+					mode = ops[end].a
+				}
+				switch mode {
+				case lErr:
+					fmt.Fprintf(&sb, "%s  errop()\n", indent)
+				case lKill:
+					fmt.Fprintf(&sb, "%s  killop()\n", indent)
+				case lLoop:
+					fmt.Fprintf(&sb, "%s  loopop()\n", indent)
+				}
+				fmt.Fprintf(&sb, "%send)\n%safter(%d, c%d)\n", indent, indent, inst, inst)
+				i = end
+			}
+		}
+	}
+	rec(0, len(ops), "")
+	return sb.String()
+}
+
+func (m *bmachine) runLua(ops []bop) (status string) {
+	src := renderLua(ops)
+	clos, err := m.r.CompileAndLoadLuaChunk("case", []byte(src), rt.TableValue(m.r.GlobalEnv()))
+	if err != nil {
+		return "compile: " + err.Error()
+	}
+	if err := rt.Call(m.r.MainThread(), rt.FunctionValue(clos), nil, rt.NewTerminationWith(nil, 0, false)); err != nil {
+		return "error: " + err.Error()
+	}
+	return ""
+}
+
+func (m *bmachine) runGo(ops []bop, from, to int) (status string) {
+	for i := from; i < to; i++ {
+		o := ops[i]
+		id := int(o.v) + 1
+		var err error
+		switch o.k {
+		case oNew:
+			if kindTable(o.a) {
+				err = m.call("newT", iv(i), iv(id), modeVal(o.a))
+			} else {
+				err = m.call("newU", iv(i), iv(id), rt.BoolValue(kindF(o.a)), rt.BoolValue(kindR(o.a)), modeVal(o.a))
+			}
+		case oRemark:
+			err = m.call("remark", iv(i), iv(id))
+		case oUnmeta:
+			err = m.call("unmeta", iv(i), iv(id))
+		case oDrop:
+			err = m.call("drop", iv(i), iv(id))
+		case oFire:
+			m.fire(i, id) // no VM step: Go's collector acts between two operations of the host program
+		case oGC:
+			err = m.call("gcop", iv(i))
+		case oEnter:
+			end := matchLeave(ops, i)
+			inst := instOf(ops, i)
+			mode := uint8(lRet)
+			if end < len(ops) {
+				mode = ops[end].a
+			}
+			inner := ""
+			ctx, _ := m.r.MainThread().CallContext(ctxDef(o.a), func() error {
+				m.logNow("enter", inst)
+				inner = m.runGo(ops, i+1, end)
+				m.logNow("bodyend", inst)
+				switch mode {
+				case lErr:
+					return m.call("errop")
+				case lKill:
+					return m.call("killop")
+				case lLoop:
+					return m.call("loopop")
+				}
+				return nil
+			})
+			m.logAfter(inst, ctx)
+			if inner != "" {
+				return inner
+			}
+			i = end
+		}
+		if err != nil {
+			return "error: " + err.Error()
+		}
+	}
+	return ""
+}
+
+// ---------------------------------------------------------------- judging one run
+
+type runResult struct {
+	clauses []string
+	log     []rawEntry
+	status  string
+	fires   int
+	monitor string
+}
+
+func (m *bmachine) translate(ops []bop) []refgc.RTEvent {
+	var out []refgc.RTEvent
+	for _, e := range m.log {
+		ev := refgc.RTEvent{Kind: e.kind, ID: e.id, Depth: e.depth, Status: e.status, CPU: e.cpu}
+		switch e.kind {
+		case "op":
+			if e.id < 0 || e.id >= len(ops) {
+				ev.Kind = "sep"
+				break
+			}
+			o := ops[e.id]
+			ev.ID = int(o.v) + 1
+			switch o.k {
+			case oNew, oRemark:
+				ev.Kind, ev.Fin, ev.Rel = "mark", kindF(o.a), kindR(o.a)
+				if o.k == oRemark {
+					k := kindOf(ops, o.v)
+					ev.Fin, ev.Rel = kindF(k), kindR(k)
+				}
+			case oUnmeta:
+				k := kindOf(ops, o.v)
+				if kindTable(k) || !kindR(k) {
+					ev.Kind = "unmeta"
+				} else {
+					// SetRawMetatable(u, nil) re-marks a releasing userdata for release only
+					ev.Kind, ev.Fin, ev.Rel = "mark", false, true
+				}
+			case oDrop:
+				ev.Kind = "drop"
+			default:
+				ev.Kind = "sep"
+			}
+		case "mark":
+			// from a finaliser that re-marks (tables only)
+			ev.Fin, ev.Rel = true, false
+		case "enter":
+			k := ctxKindOf(ops, e.id)
+			ev.Isolate = k != cSoft
+			ev.CPUTracked = k != cMem
+		}
+		out = append(out, ev)
+	}
+	return out
+}
+
+func kindOf(ops []bop, v uint8) uint8 {
+	for _, o := range ops {
+		if o.k == oNew && o.v == v {
+			return o.a
+		}
+	}
+	return 0
+}
+
+func ctxKindOf(ops []bop, inst int) uint8 {
+	n := 0
+	for _, o := range ops {
+		if o.k == oEnter {
+			n++
+			if n == inst {
+				return o.a
+			}
+		}
+	}
+	return 0
+}
+
+// runCase runs ops on a fresh runtime through the given rendering, closes the
+// runtime and judges the log.
+func runCase(ops []bop, via string) (res runResult) {
+	m := newBMachine()
+	defer func() { curMachine = nil }()
+	func() {
+		defer func() {
+			if p := recover(); p != nil {
+				res.status = fmt.Sprint("go-panic: ", p)
+			}
+		}()
+		// the harness tracks which values the program holds (for gcfire)
+		m.trackHeld(ops)
+		if via == "lua" {
+			res.status = m.runLua(ops)
+		} else {
+			res.status = m.runGo(ops, 0, len(ops))
+		}
+		m.logNow("closebegin", 0)
+		m.r.Close(nil)
+		if m.cleanup != nil {
+			m.cleanup()
+		}
+		m.log = append(m.log, rawEntry{kind: "closeend"})
+	}()
+	mon := refgc.NewRTMon()
+	for _, ev := range m.translate(ops) {
+		mon.Feed(ev)
+	}
+	res.clauses = append(res.clauses, mon.Clauses()...)
+	seen := map[string]bool{}
+	for _, b := range m.seamBad {
+		if !seen[b] {
+			seen[b] = true
+			res.clauses = append(res.clauses, b)
+		}
+	}
+	if strings.HasPrefix(res.status, "go-panic") {
+		res.clauses = append(res.clauses, "go-panic")
+	} else if res.status != "" {
+		res.clauses = append(res.clauses, "internal-unexpected-lua-error")
+	}
+	res.log = m.log
+	res.fires = m.fires
+	res.monitor = mon.String()
+	runtime.KeepAlive(m)
+	return
+}
+
+func (m *bmachine) trackHeld(ops []bop) { m.opsRef = ops }
+
+// opMark logs the marker of operation i (it is really being executed) and
+// keeps the harness's own view of which values the program holds.
+func (m *bmachine) opMark(i int) {
+	if i >= 0 && i < len(m.opsRef) {
+		o := m.opsRef[i]
+		switch o.k {
+		case oNew:
+			m.held[o.v+1] = true
+		case oDrop:
+			m.held[o.v+1] = false
+		}
+	}
+	m.logNow("op", i)
+}
